@@ -22,6 +22,7 @@ func (f *Frame) builtin(name string, c *ssa.CallCommon, args []*Value, pos token
 		case *types.Basic:
 			return term(app("s.len", x.T), sInt, intT)
 		case *types.Map:
+			f.guardAccess(x.Guard, false, " (len)", pos)
 			mt := c.Args[0].Type().Underlying().(*types.Map)
 			_, _, ln := e.mapComps(mt)
 			l := e.comp(f.st, ln, arrSort(sInt))
@@ -57,6 +58,7 @@ func (f *Frame) builtin(name string, c *ssa.CallCommon, args []*Value, pos token
 	case "copy":
 		return f.copyOp(c, args)
 	case "delete":
+		f.guardAccess(args[0].Guard, true, " (map entry)", pos)
 		f.mapDelete(args[0], args[1], c.Args[0].Type())
 		return &Value{Tuple: []*Value{}}
 	case "close":
